@@ -148,6 +148,8 @@ C09(e) ==
   \* a Get on k never returns what belongs to another key only (value or builder error), equal hashes or not
   /\ (e.ev = "ret" /\ e.err = "" /\ e.v \in OthersVals(e.k)) => e.v \in At(produced, e.k, {}) \cup At(stored, e.k, {})
   /\ (e.ev = "ret" /\ e.err # "" /\ e.err \in OthersErrs(e.k)) => e.err \in At(berrs, e.k, {})
+  \* an expired item handed out for k that now carries a value of another key (slot shared by colliding keys)
+  /\ (e.ev = "entrymutated" /\ e.v \in OthersVals(e.k)) => e.v \in At(produced, e.k, {}) \cup At(stored, e.k, {})
 
 C18(e) ==
   e.ev = "metric" =>
